@@ -1,18 +1,29 @@
 (* C05 — lemmas, part D: direct writes, alignment of the filter, the per-operation lemma and the
    run-level theorems (crash, prefix, fault). *)
 From Coq Require Import List NArith Bool Lia ZifyN ZifyNat ZifyBool PeanoNat.
-From V Require Import C05.Model C05.Proofs_A C05.Proofs_B C05.Proofs_C.
+From V Require Import C05.Model C05.Proofs_A C05.Proofs_B C05.Proofs_C C05.Proofs_E C05.Proofs_F.
 Import ListNotations.
 Open Scope N_scope.
 
 Lemma l1_consistent : forall W d h, consistent W (apply_batch d [WL1 h]) = consistent W d.
 Proof. reflexivity. Qed.
 
-Lemma snap_consistent : forall W d m, consistent W d = true -> rf_aligned W m = true ->
+Lemma snap_consistent : forall W d m, consistent W d = true -> rf_wf W m = true ->
   consistent W (apply_batch d [WSnap m]) = true.
 Proof.
   intros W d m Hc Ha. unfold consistent in *. apply andb_true_iff in Hc as [_ Hc].
   apply andb_true_iff. split; [exact Ha | exact Hc].
+Qed.
+
+(* a filter in sync with the head is well-formed *)
+Lemma sync_wf : forall W d m, 0 < W -> mem_sync W d m = true -> rf_wf W m = true.
+Proof.
+  intros W d m HW Hs. unfold mem_sync in Hs. apply andb_true_iff in Hs as [He Hs]. unfold rf_wf, rf_to.
+  destruct (d_height d) as [h|]; apply andb_true_iff in Hs as [Hn Hf];
+    apply N.eqb_eq in Hn; apply N.eqb_eq in Hf; rewrite He, Hn, Hf.
+  - destruct (align_le W (h + 1) HW). rewrite (align_mod W (h + 1) HW). simpl.
+    apply andb_true_iff. split; [apply N.leb_le; lia|apply N.leb_le; lia].
+  - rewrite N.mod_0_l by lia. simpl. apply N.leb_le. lia.
 Qed.
 
 (* ---------- the filter stays aligned ---------- *)
@@ -48,49 +59,6 @@ Proof.
   replace (0 <? h + 1) with true in Hr by (symmetry; apply N.ltb_lt; lia).
   rewrite N.eqb_refl in Hr. simpl in Hr.
   destruct (get_window d (align W h)); inversion Hr. reflexivity.
-Qed.
-
-Lemma rf_fill_aligned : forall W d cnt rf from, 0 < W -> rf_aligned W rf = true ->
-  rf_aligned W (rf_fill W d rf from cnt) = true.
-Proof.
-  induction cnt; simpl; intros rf from HW Ha; auto.
-  destruct (header d from); [|exact Ha].
-  destruct (rf_insert W rf from (b_bloom b)) as [[ws rf']|] eqn:E; [|exact Ha].
-  apply IHcnt; auto. eapply rf_insert_shape; eauto.
-Qed.
-
-Lemma get_window_In : forall d a c, get_window d a = Some c -> In (a, c) (d_windows d).
-Proof.
-  unfold get_window. intros d a c H. destruct (find (fun e => fst e =? a) (d_windows d)) as [e|] eqn:E; [|discriminate].
-  apply find_some in E as [E1 E2]. apply N.eqb_eq in E2. inversion H; subst. destruct e; exact E1.
-Qed.
-
-Lemma find_anchor_window : forall W d fl fuel a x, find_anchor W d fl a fuel = Some x ->
-  exists c, get_window d x = Some c.
-Proof.
-  induction fuel; simpl; intros a x H.
-  - destruct (get_window d a) eqn:E; [inversion H; subst; eauto|]. destruct (a <=? fl); discriminate.
-  - destruct (get_window d a) eqn:E; [inversion H; subst; eauto|]. destruct (a <=? fl); [discriminate|].
-    eapply IHfuel; eauto.
-Qed.
-
-Lemma reinit_aligned : forall W d, 0 < W -> consistent W d = true -> rf_aligned W (reinit W d) = true.
-Proof.
-  intros W d HW Hc. unfold reinit. destruct (d_height d) as [h|] eqn:Hh.
-  - pose proof (proj1 (consistent_some W d h Hh) Hc) as [Hsn [hb I]].
-    destruct I as [i_head0 i_full0 i_ent0 i_link0 i_state0 i_win0].
-    assert (Hrb : rf_aligned W (rf_rebuild W d h) = true).
-    { unfold rf_rebuild. destruct (find_anchor W d (align W (floor0 d)) (align W h) (N.to_nat (align W h / W))) as [a|] eqn:E.
-      - unfold rf_fill_range. apply rf_fill_aligned; auto. unfold rf_aligned, rf_new. simpl.
-        apply find_anchor_window in E as [c Hgw]. apply get_window_In in Hgw. apply i_win0 in Hgw as [M _].
-        apply N.eqb_eq. apply mod0_add; auto.
-      - unfold rf_fill_range. apply rf_fill_aligned; auto. unfold rf_aligned, rf_new. simpl.
-        apply N.eqb_eq. apply align_mod; auto. }
-    unfold snap_ok in Hsn. destruct (d_snap d) as [s|]; auto.
-    destruct (rf_next s =? h + 1); [exact Hsn|].
-    destruct ((rf_next s <=? h) && (h <=? rf_to W s)); auto.
-    unfold rf_fill_range. apply rf_fill_aligned; auto.
-  - unfold rf_aligned, rf0. cbn [rf_from]. apply N.eqb_eq. apply N.mod_0_l. lia.
 Qed.
 
 (* ---------- the direct writes of an initialisation ---------- *)
@@ -132,9 +100,10 @@ Proof.
       apply N.eqb_eq. apply mod0_add; auto.
     - apply fill_range_w_ok; auto. unfold rf_aligned, rf_new. simpl. apply N.eqb_eq. apply align_mod; auto. }
   unfold snap_ok in Hsn. destruct (d_snap d) as [s|]; auto.
+  destruct (rf_wf_parts W s Hsn) as (S1 & _).
   destruct (rf_next s =? h + 1); [constructor|].
   destruct ((rf_next s <=? h) && (h <=? rf_to W s)); auto.
-  apply fill_range_w_ok; auto.
+  apply fill_range_w_ok; auto. unfold rf_aligned. cbn [rf_from]. apply N.eqb_eq. exact S1.
 Qed.
 
 Lemma init_wr_consistent : forall W d h w, consistent W d = true -> d_height d = Some h -> init_wr W h w ->
@@ -149,20 +118,14 @@ Proof.
   - apply In_win_del in Hin. eauto.
 Qed.
 
-Lemma good_batches_prefix : forall W h bs d,
-  (forall b, In b bs -> forall d', consistent W d' = true -> d_height d' = Some h ->
-      consistent W (apply_batch d' b) = true /\ d_height (apply_batch d' b) = Some h) ->
-  consistent W d = true -> d_height d = Some h ->
-  forall j, consistent W (apply_batches d (firstn j bs)) = true.
-Proof.
-  induction bs; intros d Hb Hc Hh j; destruct j; simpl; auto.
-  destruct (Hb a (or_introl eq_refl) d Hc Hh) as [C1 C2].
-  apply IHbs; auto. intros b Hin. apply Hb. right; auto.
-Qed.
-
 (* ---------- one operation ---------- *)
+(* the invariant of crash-free runs: the disk is consistent and continuous, the in-memory filter is in
+   sync with the head *)
 Definition Good (W : N) (st : disk * rfilter) : Prop :=
-  consistent W (fst st) = true /\ rf_aligned W (snd st) = true.
+  consistent W (fst st) = true /\ cont (fst st) = true /\ mem_sync W (fst st) (snd st) = true.
+
+(* the disk part: what a crash leaves behind *)
+Definition DiskOK (W : N) (d : disk) : Prop := consistent W d = true /\ cont d = true.
 
 Lemma firstn_single : forall {A} (x : A) j, firstn j [x] = [] \/ firstn j [x] = [x].
 Proof. destruct j; simpl; auto. destruct j; simpl; auto. Qed.
@@ -172,87 +135,192 @@ Proof.
   induction l; intros j H; destruct j; simpl; auto. inversion H; subst. constructor; auto.
 Qed.
 
-(* every batch prefix of every operation keeps the disk consistent, and the memory stays aligned *)
-Lemma op_batches_good : forall W st o j, 0 < W -> Good W st -> op_ok W (fst st) (snd st) o = true ->
-  consistent W (apply_batches (fst st) (firstn j (fst (plan W o (fst st) (snd st))))) = true
-  /\ rf_aligned W (snd (plan W o (fst st) (snd st))) = true.
+Lemma batches_inv : forall (P : disk -> Prop) bs d,
+  (forall b, In b bs -> forall d', P d' -> P (apply_batch d' b)) -> P d ->
+  forall j, P (apply_batches d (firstn j bs)).
 Proof.
-  intros W [d m] o j HW [Hc Ha] Hok. cbn [fst snd] in *.
-  assert (Hnil : consistent W (apply_batches d (firstn j (@nil batch))) = true).
-  { destruct j; exact Hc. }
-  assert (Hone : forall x : batch, consistent W (apply_batch d x) = true ->
-                 consistent W (apply_batches d (firstn j [x])) = true).
-  { intros x Hx. destruct (firstn_single x j) as [E|E]; rewrite E; simpl; auto. }
+  induction bs; intros d Hb Hp j; destruct j; simpl; auto.
+  apply IHbs; [intros b Hin; apply Hb; right; auto | apply Hb; [left; auto | auto]].
+Qed.
+
+Definition DiskAt (W h : N) (d : disk) : Prop := DiskOK W d /\ d_height d = Some h.
+
+Lemma hc_free_DiskAt_cont : forall b d, Forall hc_free b -> cont (apply_batch d b) = cont d.
+Proof. exact hc_free_cont. Qed.
+
+(* every batch prefix of every operation leaves a consistent, continuous disk *)
+Lemma op_batches_good : forall W st o j, 0 < W -> Good W st -> op_env (fst st) o = true ->
+  DiskOK W (apply_batches (fst st) (firstn j (fst (plan W o (fst st) (snd st))))).
+Proof.
+  intros W [d m] o j HW (Hc & Hk & Hs) Hok. cbn [fst snd] in *.
+  pose proof (sync_aligned W d m HW Hs) as Ha.
+  pose proof (sync_wf W d m HW Hs) as Hwf.
+  assert (Hnil : DiskOK W (apply_batches d (firstn j (@nil batch)))).
+  { destruct j; split; auto. }
+  assert (Hone : forall x : batch, DiskOK W (apply_batch d x) -> DiskOK W (apply_batches d (firstn j [x]))).
+  { intros x Hx. destruct (firstn_single x j) as [E|E]; rewrite E; simpl; auto. split; auto. }
   destruct o; unfold plan.
   - (* Store *)
-    destruct (succession_ok d b) eqn:Hs; [|cbn [fst snd]; auto].
+    destruct (succession_ok d b) eqn:Hsu; [|cbn [fst snd]; auto].
     destruct (rf_insert W m (b_num b) (b_bloom b)) as [[ws m']|] eqn:Hi; [|cbn [fst snd]; auto].
-    destruct (store_consistent W d m b ws m' HW Hc Ha Hs Hi) as [C1 C2]. cbn [fst snd]. split; auto.
+    destruct (store_consistent W d m b ws m' HW Hc Ha Hsu Hi) as [C1 C2]. cbn [fst snd].
+    apply Hone. split; auto. eapply store_cont; eauto.
+    destruct (rf_insert_shape W m _ _ _ _ HW Ha Hi) as [_ [->|[c [-> _]]]]; repeat constructor.
   - (* Revert *)
     destruct (d_height d) as [h|] eqn:Hh; [|cbn [fst snd]; auto].
     destruct (find_num h (d_fam d FSU)); [|cbn [fst snd]; auto].
     destruct (header d h) as [hb|] eqn:Hd; [|cbn [fst snd]; auto].
     destruct (rf_reorg_shape W d m HW Ha) as [A1 A2].
     destruct (rf_reorg W d m) as [[ws|] m'] eqn:Hr; cbn [fst snd] in *; [|auto].
-    split; auto. apply Hone. unfold op_ok in Hok. rewrite Hh in Hok.
-    apply andb_true_iff in Hok as [Hb Hp].
-    eapply revert_consistent; eauto.
-    intros Hz. eapply rf_reorg_sync; eauto.
-    apply N.eqb_eq in Hz. rewrite Hz in Hb. simpl in Hb. exact Hb.
+    apply Hone. unfold op_env in Hok. rewrite Hh in Hok.
+    assert (Hwo : Forall window_only ws).
+    { destruct (A2 ws eq_refl) as [->|[a ->]]; repeat constructor. }
+    split.
+    + eapply revert_consistent; eauto. intros Hz. eapply rf_reorg_sync; eauto.
+    + eapply revert_cont; eauto.
   - (* Prune *)
-    cbn [fst snd]. split; auto. unfold op_ok in Hok. destruct (d_height d) as [h|] eqn:Hh.
+    cbn [fst snd]. unfold op_env in Hok. destruct (d_height d) as [h|] eqn:Hh.
     + apply N.leb_le in Hok.
-      pose proof (prune_plan_wr W d e h Hok) as P. apply (Forall_firstn _ _ j) in P.
-      pose proof (proj1 (consistent_some W d h Hh) Hc) as [Hsn [hb I]].
-      destruct (prune_batches_InvS W h hb _ d I P) as (I' & A & B).
-      apply (proj2 (consistent_some W _ h (eq_trans A Hh))). split; eauto.
-      unfold snap_ok in *. rewrite B. exact Hsn.
-    + (* empty chain: no commitments, nothing to prune *)
-      pose proof (proj1 (consistent_none W d Hh) Hc) as (_ & Hf & _ & _).
+      pose proof (prune_plan_wr W d keep_hist e h Hok) as P1. rewrite Forall_forall in P1.
+      pose proof (prune_plan_shape W d keep_hist e) as P2. rewrite Forall_forall in P2.
+      apply (batches_inv (DiskAt W h)); [|split; [split|]; auto].
+      intros b Hin d' [[Hc' Hk'] Hh'].
+      pose proof (proj1 (consistent_some W d' h Hh') Hc') as [Hsn [hb I]].
+      destruct (prune_batch_InvS W h hb b d' I (P1 b Hin)) as (I' & A & B).
+      split; [split|congruence].
+      * apply (proj2 (consistent_some W _ h (eq_trans A Hh'))). split; eauto.
+        unfold snap_ok in *. rewrite B. exact Hsn.
+      * destruct (P2 b Hin) as [Hf| ->]; [rewrite hc_free_cont; auto|eapply prune_data_cont; eauto].
+    + pose proof (proj1 (consistent_none W d Hh) Hc) as (_ & Hf & _ & _).
       unfold prune_plan, floor. rewrite Hf. exact Hnil.
   - (* SetL1 *)
-    cbn [fst snd]. split; [|exact Ha]. apply Hone. rewrite l1_consistent. exact Hc.
+    cbn [fst snd]. apply Hone. split; [rewrite l1_consistent; exact Hc|].
+    rewrite hc_free_cont; auto. repeat constructor.
   - (* Snapshot *)
-    cbn [fst snd]. split; [|exact Ha].
-    destruct (rf_err m); [exact Hnil | apply Hone; apply (snap_consistent W d m); auto].
+    cbn [fst snd]. destruct (rf_err m); [exact Hnil|]. apply Hone. split.
+    + apply snap_consistent; auto.
+    + rewrite hc_free_cont; auto. repeat constructor.
   - (* Restart: optional snapshot, then the direct writes of the initialisation, one commit each *)
     cbn [fst snd].
     set (bs0 := if graceful && negb (rf_err m) then [[WSnap m]] else []).
-    assert (Hd1 : consistent W (apply_batches d bs0) = true /\ d_height (apply_batches d bs0) = d_height d).
-    { subst bs0. destruct (graceful && negb (rf_err m)); simpl; auto. split; auto. apply (snap_consistent W d m); auto. }
-    destruct Hd1 as [Hc1 Hh1]. split; [|apply reinit_aligned; auto].
+    assert (Hd1 : DiskOK W (apply_batches d bs0) /\ d_height (apply_batches d bs0) = d_height d).
+    { subst bs0. destruct (graceful && negb (rf_err m)); cbn [apply_batches fold_left]; [|split; [split|]; auto].
+      split; [split|reflexivity]. apply snap_consistent; auto. rewrite hc_free_cont; auto. repeat constructor. }
+    destruct Hd1 as [[Hc1 Hk1] Hh1].
     destruct (d_height d) as [h|] eqn:Hh.
-    + apply (good_batches_prefix W h); auto.
-      intros b Hin d' Hc' Hh'. apply in_app_or in Hin as [Hin|Hin].
+    + apply (batches_inv (DiskAt W h)); [|split; [split|]; auto].
+      intros b Hin d' [[Hc' Hk'] Hh']. apply in_app_or in Hin as [Hin|Hin].
       * subst bs0. destruct (graceful && negb (rf_err m)); [|destruct Hin].
-        destruct Hin as [<-|[]]. split; [apply snap_consistent; auto|exact Hh'].
+        destruct Hin as [<-|[]]. split; [split|exact Hh'].
+        -- apply snap_consistent; auto.
+        -- rewrite hc_free_cont; auto. repeat constructor.
       * apply in_map_iff in Hin as [w [<- Hw]].
         pose proof (reinit_w_ok W _ h HW Hc1 Hh1) as F. rewrite Forall_forall in F.
-        apply init_wr_consistent; auto.
+        destruct (init_wr_consistent W d' h w Hc' Hh' (F w Hw)) as [X Y]. split; [split|]; auto.
+        rewrite hc_free_cont; auto. destruct (F w Hw) as (a & c & -> & _). repeat constructor.
     + unfold reinit_w. rewrite Hh1. simpl. rewrite app_nil_r.
-      subst bs0. destruct (graceful && negb (rf_err m)); [apply Hone; apply (snap_consistent W d m); auto | exact Hnil].
+      subst bs0. destruct (graceful && negb (rf_err m)); [|exact Hnil].
+      apply Hone. split; [apply snap_consistent; auto|]. rewrite hc_free_cont; auto. repeat constructor.
 Qed.
 
-Lemma firstn_all' : forall {A} (l : list A), firstn (length l) l = l.
-Proof. intros. apply firstn_all. Qed.
+Lemma apply_batches_app : forall d a b, apply_batches d (a ++ b) = apply_batches (apply_batches d a) b.
+Proof. intros. unfold apply_batches. apply fold_left_app. Qed.
 
-Lemma step_good : forall W st o, 0 < W -> Good W st -> op_ok W (fst st) (snd st) o = true -> Good W (step W st o).
+Lemma mem_sync_ext : forall W d d' m, d_height d' = d_height d -> mem_sync W d' m = mem_sync W d m.
+Proof. intros. unfold mem_sync. rewrite H. reflexivity. Qed.
+
+Lemma singles_height : forall ws d, Forall window_only ws ->
+  d_height (apply_batches d (map (fun w => [w]) ws)) = d_height d.
+Proof.
+  induction ws; simpl; intros d H; auto. inversion H; subst. rewrite IHws by auto.
+  destruct a; simpl in H2; try contradiction. destruct c; reflexivity.
+Qed.
+
+Lemma step_good : forall W st o, 0 < W -> Good W st -> op_env (fst st) o = true -> Good W (step W st o).
 Proof.
   intros W st o HW HG Hok.
-  destruct (op_batches_good W st o (length (fst (plan W o (fst st) (snd st)))) HW HG Hok) as [C A].
-  rewrite firstn_all in C. unfold step.
-  destruct (plan W o (fst st) (snd st)) as [bs m'] eqn:E. simpl in *. split; simpl; auto.
+  destruct (op_batches_good W st o (length (fst (plan W o (fst st) (snd st)))) HW HG Hok) as [C K].
+  rewrite firstn_all in C, K.
+  destruct (is_restart o) eqn:Hr.
+  - (* Restart: the memory is reinit of the disk after the optional snapshot *)
+    destruct o; try discriminate. destruct st as [d m]. destruct HG as (Hc & Hk & Hs). cbn [fst snd] in *.
+    unfold step. cbn [plan fst snd] in *. split; [|split]; auto.
+    set (bs0 := if graceful && negb (rf_err m) then [[WSnap m]] else []) in *.
+    assert (Hd1 : DiskOK W (apply_batches d bs0) /\ d_height (apply_batches d bs0) = d_height d).
+    { subst bs0. destruct (graceful && negb (rf_err m)); cbn [apply_batches fold_left]; [|split; [split|]; auto].
+      split; [split|reflexivity]. apply snap_consistent; auto. eapply sync_wf; eauto.
+      rewrite hc_free_cont; auto. repeat constructor. }
+    destruct Hd1 as [[Hc1 Hk1] Hh1].
+    rewrite (mem_sync_ext W (apply_batches d bs0)).
+    + apply reinit_sync; auto.
+    + rewrite apply_batches_app. apply singles_height.
+      destruct (d_height (apply_batches d bs0)) as [h|] eqn:Hh.
+      * pose proof (reinit_w_ok W _ h HW Hc1 Hh) as F. eapply Forall_impl; [|exact F].
+        intros w (a & c & -> & _). exact I.
+      * unfold reinit_w. rewrite Hh. constructor.
+  - unfold step in *. destruct (plan W o (fst st) (snd st)) as [bs m'] eqn:E. cbn [fst snd] in *.
+    split; [|split]; auto.
+    pose proof (sync_step W st o HW (proj2 (proj2 HG)) Hr) as S. unfold step in S. rewrite E in S. exact S.
 Qed.
 
 (* ---------- crash ---------- *)
-Lemma crash_consistent : forall W ops k st, 0 < W -> Good W st -> ops_ok W ops st = true ->
-  consistent W (crash_disk W ops k st) = true.
+Lemma crash_consistent : forall W ops k st, 0 < W -> Good W st -> ops_env W ops st = true ->
+  DiskOK W (crash_disk W ops k st).
 Proof.
-  induction ops; simpl; intros k st HW HG Hok; [apply HG|].
+  induction ops; simpl; intros k st HW HG Hok; [destruct HG as (A & B & _); split; auto|].
   apply andb_true_iff in Hok as [H1 H2].
   destruct (Nat.leb (length (fst (plan W a (fst st) (snd st)))) k).
   - apply IHops; auto. apply step_good; auto.
   - apply (op_batches_good W st a k HW HG H1).
+Qed.
+
+(* what a fresh process makes of a consistent, continuous disk: consistent, continuous, in sync — hence
+   ready for the next block *)
+Lemma recover_good : forall W d m, 0 < W -> DiskOK W d -> Good W (step W (d, m) (Restart false)).
+Proof.
+  intros W d m HW [Hc Hk]. unfold step. cbn [plan fst snd andb apply_batches fold_left app].
+  assert (Hh : d_height (apply_batches d (map (fun w => [w]) (reinit_w W d))) = d_height d).
+  { apply singles_height. destruct (d_height d) as [h|] eqn:Hh.
+    - pose proof (reinit_w_ok W d h HW Hc Hh) as F. eapply Forall_impl; [|exact F].
+      intros w (a & c & -> & _). exact I.
+    - unfold reinit_w. rewrite Hh. constructor. }
+  assert (HD : DiskOK W (apply_batches d (map (fun w => [w]) (reinit_w W d)))).
+  { destruct (d_height d) as [h|] eqn:Hh0.
+    - pose proof (reinit_w_ok W d h HW Hc Hh0) as F. rewrite Forall_forall in F.
+      rewrite <- (firstn_all (map (fun w => [w]) (reinit_w W d))).
+      apply (batches_inv (DiskAt W h)); [|split; [split|]; auto].
+      intros b Hin d' [[Hc' Hk'] Hh']. apply in_map_iff in Hin as [w [<- Hw]].
+      destruct (init_wr_consistent W d' h w Hc' Hh' (F w Hw)) as [X Y]. split; [split|]; auto.
+      rewrite hc_free_cont; auto. destruct (F w Hw) as (a & c & -> & _). repeat constructor.
+    - unfold reinit_w. rewrite Hh0. simpl. split; auto. }
+  destruct HD as [A B]. split; [|split]; auto.
+  rewrite (mem_sync_ext W d); auto. apply reinit_sync; auto.
+Qed.
+
+Lemma sync_ready : forall W d m, 0 < W -> mem_sync W d m = true -> rf_ready W (next_num d) m = true.
+Proof.
+  intros W d m HW Hs. unfold mem_sync in Hs. apply andb_true_iff in Hs as [He Hs].
+  unfold rf_ready, next_num, rf_to. rewrite He. simpl.
+  destruct (d_height d) as [h|]; apply andb_true_iff in Hs as [Hn Hf]; apply N.eqb_eq in Hf; rewrite Hf.
+  - destruct (align_le W (h + 1) HW). apply andb_true_iff. split; apply N.leb_le; lia.
+  - apply andb_true_iff. split; apply N.leb_le; lia.
+Qed.
+
+(* from a state in sync every block that follows the head stores, and the result is again Good *)
+Lemma sync_stores : forall W d m b, 0 < W -> mem_sync W d m = true -> succession_ok d b = true ->
+  stores W d m b = true.
+Proof.
+  intros W d m b HW Hs Hsu. unfold stores. cbn [plan]. rewrite Hsu.
+  pose proof (sync_ready W d m HW Hs) as R. unfold rf_ready in R.
+  apply andb_true_iff in R as [R R3]. apply andb_true_iff in R as [R1 R2].
+  assert (Hn : b_num b = next_num d).
+  { unfold succession_ok in Hsu. unfold next_num. destruct (d_height d) as [h|].
+    - destruct (header d h); [|discriminate]. apply andb_true_iff in Hsu as [S1 _]. apply N.eqb_eq in S1. auto.
+    - apply andb_true_iff in Hsu as [S1 _]. apply N.eqb_eq in S1. auto. }
+  unfold rf_insert. destruct (rf_err m); [discriminate|]. rewrite Hn.
+  replace ((next_num d <? rf_from m) || (rf_to W m <? next_num d)) with false
+    by (symmetry; apply orb_false_iff; split; apply N.ltb_ge; lia).
+  destruct (next_num d =? rf_to W m); reflexivity.
 Qed.
 
 (* the crash image is the disk after a prefix of complete operations followed by a batch prefix of
@@ -274,7 +342,7 @@ Proof.
     + exists O, k. reflexivity.
 Qed.
 
-Lemma plan_single : forall W o d m, (forall e, o <> Prune e) -> is_restart o = false ->
+Lemma plan_single : forall W o d m, (forall kh e, o <> Prune kh e) -> is_restart o = false ->
   (length (fst (plan W o d m)) <= 1)%nat.
 Proof.
   intros W o d m Hp Hr. destruct o; simpl; try discriminate.
@@ -287,16 +355,16 @@ Proof.
 Qed.
 
 (* without prune and restart every crash image is the disk after a prefix of COMPLETE operations *)
-Lemma crash_atomic : forall W ops k st, (forall e, ~ In (Prune e) ops) ->
+Lemma crash_atomic : forall W ops k st, (forall kh e, ~ In (Prune kh e) ops) ->
   (forall o, In o ops -> is_restart o = false) ->
   exists n, crash_disk W ops k st = fst (run W (firstn n ops) st).
 Proof.
   induction ops; simpl; intros k st Hp Hr.
   - exists O. reflexivity.
-  - pose proof (plan_single W a (fst st) (snd st) ltac:(intros e X; apply (Hp e); left; auto) (Hr a (or_introl eq_refl))) as L.
+  - pose proof (plan_single W a (fst st) (snd st) ltac:(intros kh e X; apply (Hp kh e); left; auto) (Hr a (or_introl eq_refl))) as L.
     destruct (Nat.leb (length (fst (plan W a (fst st) (snd st)))) k) eqn:E.
     + destruct (IHops (k - length (fst (plan W a (fst st) (snd st))))%nat (step W st a)) as [n H].
-      { intros e X. apply (Hp e). right; auto. }
+      { intros kh e X. apply (Hp kh e). right; auto. }
       { intros o X. apply Hr. right; auto. }
       exists (S n). simpl. exact H.
     + exists O. simpl. apply Nat.leb_gt in E.
@@ -337,7 +405,7 @@ Proof.
     unfold rf_superset. simpl. rewrite H2. simpl. apply cols_sub_cons. exact H3.
 Qed.
 
-Lemma fault_disk_single : forall W o d m, (forall e, o <> Prune e) -> is_restart o = false ->
+Lemma fault_disk_single : forall W o d m, (forall kh e, o <> Prune kh e) -> is_restart o = false ->
   fst (plan W o d m) <> [] -> fst (exec_fault W [o] 0 (d, m)) = d.
 Proof.
   intros W o d m Hp Hr Hne. rewrite fault_step_disk; auto.
@@ -345,8 +413,8 @@ Proof.
 Qed.
 
 (* failing the k-th commit of a prune leaves exactly the batches before it *)
-Lemma fault_disk_prune : forall W e d m k, (k < length (prune_plan W d e))%nat ->
-  fst (exec_fault W [Prune e] k (d, m)) = apply_batches d (firstn k (prune_plan W d e)).
+Lemma fault_disk_prune : forall W kh e d m k, (k < length (prune_plan W d kh e))%nat ->
+  fst (exec_fault W [Prune kh e] k (d, m)) = apply_batches d (firstn k (prune_plan W d kh e)).
 Proof.
-  intros. apply (fault_step_disk W (Prune e) d m k); auto.
+  intros. apply (fault_step_disk W (Prune kh e) d m k); auto.
 Qed.
